@@ -27,7 +27,9 @@
   (b) in the main-thread operation `advance dt` (everything with time ≤ the new clock fires).  Items
   that are due but unfired when a request starts therefore fire *inside* that request's first
   `select` (a callback from another thread during the request); `advance 0` fires them before it.
-  The two halves of a thread-safe callback (`tsAppend`, `tsWrite`) are separate agenda items.
+  A thread-safe callback is three agenda items in code order: `tsAppend` (runs up to its os.write: the event is
+  appended), `tsWrite` (the write takes effect), `tsDone` (it returns); the simulation runs the real callback in a
+  helper thread parked before and after the write.
 
   ASSUMPTIONS of the model (not provable here): list append/pop are atomic (GIL) - the model cannot
   preempt the main thread inside one statement; signal delivery = one wake-up byte + the Python
@@ -66,7 +68,8 @@ inductive EnvAct (β : Type) where
   | trigger (e : Ev)                 -- a callback of event_trigger
   | schedule (t : Time) (e : Ev)     -- a callback of scheduled_event_trigger
   | tsAppend (p : Nat) (e : Ev)      -- first half of a threadsafe callback of pipe p
-  | tsWrite (p : Nat)                -- second half: os.write(writefd, ...)
+  | tsWrite (p : Nat)                -- second half: os.write(writefd, ...) takes effect
+  | tsDone (p : Nat)                 -- the callback returns (nothing observable happens after the write)
   | sigint                           -- SIGINT with Input.sigint_handler installed
   | signal (n : Nat)                 -- another signal whose handler returns (e.g. SIGWINCH)
   | spurious                         -- stdin becomes "ready" with nothing to read
@@ -122,6 +125,7 @@ def applyEnv (P : Params) (a : EnvAct β) (st : InSt β) : InSt β :=
   | .schedule t e => { st with scheduled := st.scheduled ++ [(t, e)] }
   | .tsAppend _ e => { st with interrupting := st.interrupting ++ [e] }
   | .tsWrite p => { st with pipes := addAt st.pipes p PIPE_WRITE }
+  | .tsDone _ => st
   | .sigint => if P.hasWake then { st with sigints := st.sigints + 1, wake := st.wake ++ [SIGINT] } else st
   | .signal n => if P.hasWake then { st with wake := st.wake ++ [n] } else st
   | .spurious => { st with spurious := true }
@@ -238,6 +242,34 @@ def isPaste (P : Params) (n : Nat) : Bool :=
 /-- fuel that always suffices for the paste loop: each round consumes a byte or returns -/
 def pasteFuel (st : InSt β) : Nat := st.unprocessed.length + st.osbuf.length + 2
 
+/-- `_send` from `num_bytes = self._nonblocking_read()` on -/
+def sendRead (P : Params) (gk : List Nat → Bool → Except PyErr (Option κ)) (val : β → Nat)
+    (st : InSt β) (ag : Agenda β) : Except Fail (Option (Out κ β)) × InSt β × Agenda β :=
+  let (n, st) := nonblockingRead P st
+  if n == 0 then (.ok none, st, ag)
+  else
+    if isPaste P n then
+      let (r, st) := pasteLoop P gk val (pasteFuel st) [] st
+      (r, st, ag)
+    else
+      match findKey gk val st.unprocessed [] with
+      | (.error e, _, rest) => (.error (.py e), { st with unprocessed := rest }, ag)
+      | (.ok (some k), used, rest) => (.ok (some (.key k used)), { st with unprocessed := rest }, ag)
+      | (.ok none, _, rest) => (.error (.py .assertionError), { st with unprocessed := rest }, ag)
+
+/-- `_send` after `_wait_for_read_ready_or_timeout` returned `(ready, None)`: events may have been scheduled while
+    waiting, so sort again and re-read `when`; then `if not stdin_ready_for_read: return None`; then read. -/
+def afterWait (P : Params) (gk : List Nat → Bool → Except PyErr (Option κ)) (val : β → Nat) (ready : Bool)
+    (st : InSt β) (ag : Agenda β) : Except Fail (Option (Out κ β)) × InSt β × Agenda β :=
+  match sortSched st.scheduled with
+  | (w0, e0) :: srest =>
+    let st := { st with scheduled := (w0, e0) :: srest }
+    if w0 < st.clock then (.ok (some (.scheduled w0 e0)), { st with scheduled := srest }, ag)
+    else if !ready then (.ok none, st, ag)
+    else sendRead P gk val st ag
+  | [] =>
+    if !ready then (.ok none, st, ag) else sendRead P gk val st ag
+
 /-- `_send` from `e = find_key()` on. `tuc` is `time_until_check`. (The local `when` of the first
     scheduled-events check is dead after it: the check after the wait sorts and reads it again.) -/
 def sendRest (P : Params) (gk : List Nat → Bool → Except PyErr (Option κ)) (val : β → Nat) (waitFuel : Nat)
@@ -251,31 +283,7 @@ def sendRest (P : Params) (gk : List Nat → Bool → Except PyErr (Option κ)) 
     match waitLoop (κ := κ) P tuc st.clock waitFuel tuc st ag with
     | (.error f, st, ag) => (.error f, st, ag)
     | (.ok (_, some ev), st, ag) => (.ok (some ev), st, ag)               -- `if event: return event`
-    | (.ok (ready, none), st, ag) =>
-      -- events may have been scheduled while waiting: sort again and re-read `when`
-      match sortSched st.scheduled with
-      | (w0, e0) :: srest =>
-        let st := { st with scheduled := (w0, e0) :: srest }
-        if w0 < st.clock then (.ok (some (.scheduled w0 e0)), { st with scheduled := srest }, ag)
-        else if !ready then (.ok none, st, ag)
-        else sendRead P gk val st ag
-      | [] =>
-        if !ready then (.ok none, st, ag) else sendRead P gk val st ag
-where
-  /-- from `num_bytes = self._nonblocking_read()` on -/
-  sendRead (P : Params) (gk : List Nat → Bool → Except PyErr (Option κ)) (val : β → Nat)
-      (st : InSt β) (ag : Agenda β) : Except Fail (Option (Out κ β)) × InSt β × Agenda β :=
-    let (n, st) := nonblockingRead P st
-    if n == 0 then (.ok none, st, ag)
-    else
-      if isPaste P n then
-        let (r, st) := pasteLoop P gk val (pasteFuel st) [] st
-        (r, st, ag)
-      else
-        match findKey gk val st.unprocessed [] with
-        | (.error e, _, rest) => (.error (.py e), { st with unprocessed := rest }, ag)
-        | (.ok (some k), used, rest) => (.ok (some (.key k used)), { st with unprocessed := rest }, ag)
-        | (.ok none, _, rest) => (.error (.py .assertionError), { st with unprocessed := rest }, ag)
+    | (.ok (ready, none), st, ag) => afterWait P gk val ready st ag
 
 /-- `Input._send(timeout)` (and `send`, which only wraps it in `ReplacedSigIntHandler` - C12). -/
 def send (P : Params) (gk : List Nat → Bool → Except PyErr (Option κ)) (val : β → Nat) (waitFuel : Nat)
